@@ -125,9 +125,52 @@ fn space(ctx: &Ctx, rep: &mut Report, n: usize) {
     rep.add_space(&format!("{}H with all {} sub-hands", n, n), &acc, t0, "canonical slot order; each sub-hand leaves out one slot");
 }
 
+fn all_orders_space(rep: &mut Report, n: usize) {
+    // every slot order of every n-card hand of two small sub-decks (a shortcut that depends on where cards sit is right
+    // in canonical and sorted orders and wrong in a few of the 5,040 arrangements)
+    let kind_name = if n == 7 { "seven.min_of_sixes" } else { "six.min_of_fives" };
+    let kind = monitor::kind_id(kind_name);
+    let orders = crate::engine::enumerate::permutations(n);
+    for (name, cards) in super::c02::small_sub_decks() {
+        let t0 = Instant::now();
+        let hands = crate::engine::enumerate::combos(cards.len(), n);
+        let accs = par_parts(hands.len(), |hi| {
+            let mut acc = Acc::new(8);
+            let base: Vec<u32> = hands[hi].iter().map(|i| cards[*i].word()).collect();
+            let mut w = vec![0u32; n];
+            for ord in &orders {
+                for i in 0..n {
+                    w[ord[i]] = base[i];
+                }
+                let w64: Vec<u64> = w.iter().map(|x| *x as u64).collect();
+                monitor::beat(kind, &w64);
+                acc.cases += 1;
+                acc.calls += 1 + n as u64;
+                acc.nontrivial += 1;
+                let ok = matches!(guard(|| {
+                    let v = AnyHand::from_words(&w).value().unwrap();
+                    let m = (0..n).map(|i| AnyHand::from_words(&without(&w, i)).value().unwrap()).min().unwrap();
+                    (v, m)
+                }), Ok((v, m)) if v == m);
+                if !ok {
+                    match confirm(judge, Case::w32(kind_name, &w)) {
+                        Some(v) => acc.violate(v),
+                        None => super::unreproduced("C09 all-orders mismatch not reproduced"),
+                    }
+                }
+            }
+            acc
+        });
+        let acc = Acc::merged(accs);
+        rep.add_space(&format!("sub-deck {} : every {}-card hand x all {} slot orders, with all its sub-hands", name, n, orders.len()), &acc, t0, "sub-hands keep the relative slot order");
+    }
+}
+
 pub fn run(ctx: &Ctx, rep: &mut Report) {
     space(ctx, rep, 6);
     space(ctx, rep, 7);
+    all_orders_space(rep, 6);
+    all_orders_space(rep, 7);
     {
         let d = deck();
         let mut items = Vec::new();
@@ -144,6 +187,6 @@ pub fn run(ctx: &Ctx, rep: &mut Report) {
         super::history2(rep, judge, &items);
     }
     rep.rule = "distinct six- and seven-card hands; non-trivial = only the forced number of sub-hands (1 of 6, 2 of 7) attains the minimum, i.e. the best five-card hand is unique and every other sub-hand is strictly weaker".into();
-    rep.bound = "all six- and seven-card subsets in canonical slot order (slot-order independence is C02's)".into();
+    rep.bound = "all six- and seven-card subsets in canonical slot order, plus every slot order of every hand of two 12-card sub-decks; other orders of other hands are outside (slot-order independence of the value itself is C02's)".into();
     rep.assume("v7 <= v6_i and v6 <= v5_j follow from the two minimum equalities checked on every hand");
 }
